@@ -32,6 +32,10 @@ Funcs == {
   Fn("dwpU", {"src","dest","key","iv","hdr","tag"}, 0, 20, {}, {5, 16, 17, 32}),
   Fn("cheU", {"src","dest","key","iv","hdr","tag"}, 0, 20, {}, {5, 16, 17, 32}),
   Fn("keyExpand", {"src","dest"}, -1032, 0, {}, {16, 24, 32}),
+  Fn("krp",  {"src","dest","iv","hdr"}, -1016, 16, {}, {16, 24, 32}),       \* src = the key [n], dest = the derived key [16], iv = level
+  Fn("krpN", {"src","dest","iv","hdr"}, 0, 16, {}, {16, 24, 32}),           \* derived key of the same length
+  Fn("fmtE", {"src","dest","key","iv"}, 0, 0, {{"dest","iv"}}, {20, 34}),   \* u16 strings: len = 2 * count octets, mod = 65536
+  Fn("fmtD", {"src","dest","key","iv"}, 0, 0, {{"dest","iv"}}, {20, 34}),
   Fn("memMove", {"src","dest"}, 0, 0, {}, {1, 16, 17}),
   Fn("memJoin", {"src","dest","hdr"}, 7, 7, {}, {1, 9, 16}) }
 
@@ -45,7 +49,8 @@ Overlaps(f, len, pl, a, b) ==
   LET pa == Pos(pl, a)  pb == Pos(pl, b) IN
   /\ pa # SEP /\ pb # SEP
   /\ pa < pb + ParLen(f, len, b) /\ pb < pa + ParLen(f, len, a)
-Legal(f, len, pl) == \A pr \in f.forbidden : \A a \in pr, b \in pr : a # b => ~Overlaps(f, len, pl, a, b)
+Aligned(f, pl) == f.name \in {"fmtE", "fmtD"} => pl.doff % 2 = 0          \* u16 arrays: even offsets only
+Legal(f, len, pl) == Aligned(f, pl) /\ \A pr \in f.forbidden : \A a \in pr, b \in pr : a # b => ~Overlaps(f, len, pl, a, b)
 \* the arena has room for [-(ARENA_LO), ARENA_HI)
 InArena(f, len, pl) == \A p \in f.params : Pos(pl, p) = SEP \/ (Pos(pl, p) >= -700 /\ Pos(pl, p) + ParLen(f, len, p) <= 1200)
 
